@@ -3,8 +3,9 @@
 (*  mirrors, step by step,                                                 *)
 (*    routines/pca.hpp   compute_mean (Proj_Model.mean_vec / _exec),       *)
 (*                       compute_covariance_matrix (OLD = as shipped before *)
-(*                       fix F8, and CURRENT = returning the full          *)
-(*                       symmetric matrix), project (Proj_Model)           *)
+(*                       fix F8; EXPANDED = F8 .. F49, E[xx^T] - m m^T,     *)
+(*                       full symmetric matrix returned; CURRENT = after   *)
+(*                       fix F49: centred vectors accumulated), project    *)
 (*    routines/eigendecomposition.hpp  eigendecomposition_impl_dense:      *)
 (*                       dense_wm += dense_wm^T; dense_wm /= 2; the Eigen   *)
 (*                       solver then reads the LOWER triangle              *)
@@ -48,9 +49,23 @@ Section PcaModel.
   Definition compute_covariance_old (N : nat) (X : mat F) (mean : vec F) : mat F :=
     cov_accumulated N X mean.
 
-  (* CURRENT:  return DenseSymmetricMatrix(covariance_matrix.selfadjointView<Eigen::Upper>()); *)
-  Definition compute_covariance (N : nat) (X : mat F) (mean : vec F) : mat F :=
+  (* EXPANDED form, shipped from fix F8 until fix F49:  E[x x^T] - mean mean^T, then
+       return DenseSymmetricMatrix(covariance_matrix.selfadjointView<Eigen::Upper>());
+     over an exact field it is the covariance (theorem cov_expanded_is_covariance); in binary64 the
+     subtraction cancels: absolute error ~ N eps |x|^2, i.e. (offset / spread)^2 eps relative to the result *)
+  Definition compute_covariance_expanded (N : nat) (X : mat F) (mean : vec F) : mat F :=
     sym_from_upper (cov_accumulated N X mean).
+
+  (* CURRENT (fix F49): the loop accumulates the CENTRED vectors,
+       callback.vector( *iter, current_vector);  current_vector -= mean;
+       covariance_matrix.selfadjointView<Upper>().rankUpdate(current_vector, 1.0);
+     then  covariance_matrix /= (end - begin);  there is no rank update with the mean any more *)
+  Definition cov_accumulated_centred (N : nat) (X : mat F) (mean : vec F) : mat F :=
+    mdiv N (cov_loop N (fun k t => X k t - mean t) mzero).
+
+  (*   return DenseSymmetricMatrix(covariance_matrix.selfadjointView<Eigen::Upper>()); *)
+  Definition compute_covariance (N : nat) (X : mat F) (mean : vec F) : mat F :=
+    sym_from_upper (cov_accumulated_centred N X mean).
 
   (* what each solver front-end SEES of the matrix m it is handed *)
   (* dense: dense_wm = wm; dense_wm += dense_wm.transpose().eval(); dense_wm /= 2.0;
@@ -65,6 +80,7 @@ Section PcaModel.
        return (project(P, mean, ...), MatrixProjectionImplementation(P, mean)) *)
   Definition pca_matrix (N : nat) (X : mat F) : mat F := compute_covariance N X (mean_vec N X).
   Definition pca_matrix_old (N : nat) (X : mat F) : mat F := compute_covariance_old N X (mean_vec N X).
+  Definition pca_matrix_expanded (N : nat) (X : mat F) : mat F := compute_covariance_expanded N X (mean_vec N X).
 
   (* selection from a full solver answer V (columns = eigenvectors, ascending eigenvalues):
      the view comes from the generated table through Mat_EigSelect.eval_ops *)
@@ -112,17 +128,35 @@ Section PcaModel.
     else if negb (Nat.eqb (length mean) D) then PDim 6 (length mean) D
     else POk (cov_accumulated_exec D Xs mean).
 
-  Definition compute_covariance_exec (D : nat) (Xs : list (list F)) (mean : list F)
+  (* expanded form (F8 .. F49) *)
+  Definition compute_covariance_expanded_exec (D : nat) (Xs : list (list F)) (mean : list F)
     : pres (list (list F)) :=
     match compute_covariance_old_exec D Xs mean with
     | POk U => POk (mtab D D (sym_from_upper (mof U)))
     | PDim a b c => PDim a b c
     end.
 
+  (* current code: every sample is centred (current_vector -= mean) before its rank-one update *)
+  Definition cov_accumulated_centred_exec (D : nat) (Xs : list (list F)) (mean : list F) : list (list F) :=
+    let acc := cov_loop_exec D (map (fun x => zip_sub x mean) Xs) (mtab D D mzero) in
+    mtab D D (mdiv (length Xs) (mof acc)).
+
+  Definition compute_covariance_exec (D : nat) (Xs : list (list F)) (mean : list F)
+    : pres (list (list F)) :=
+    if negb (forallb (fun x => Nat.eqb (length x) D) Xs) then PDim 5 0 D
+    else if negb (Nat.eqb (length mean) D) then PDim 6 (length mean) D
+    else POk (mtab D D (sym_from_upper (mof (cov_accumulated_centred_exec D Xs mean)))).
+
   (* mean, then covariance: the first two statements of embed() *)
   Definition pca_matrix_exec (D : nat) (Xs : list (list F)) : pres (list (list F)) :=
     match compute_mean_exec D Xs with
     | POk m => compute_covariance_exec D Xs m
+    | PDim a b c => PDim a b c
+    end.
+
+  Definition pca_matrix_expanded_exec (D : nat) (Xs : list (list F)) : pres (list (list F)) :=
+    match compute_mean_exec D Xs with
+    | POk m => compute_covariance_expanded_exec D Xs m
     | PDim a b c => PDim a b c
     end.
 
